@@ -85,3 +85,9 @@ prop('C19', technique='contract-based deductive verification of the numeric fiel
      assumptions=['str.format(value) is an uninterpreted function of (format spec, value): digit generation and rounding are those of CPython'],
      not_covered=['format strings longer than 4 in the scanner', 'format strings whose meaning the property does not fix (comma right of the point, '
                   'digit position directly after a trailing sign, sign followed by . or ,)'])
+prop('C11', technique='contract-based deductive verification: loop invariant with a ghost line-break counter (strings), contracts of the '
+                      'marker collector, the assembler and DebugInfo.finalize/find_stmt over symbolic offsets, marker-erasure lemmas of the generators',
+     explanation='line of an offset, collector stack discipline, markers at instruction boundaries occupying no bytes, synthesised block start/end '
+                 'records, innermost-statement lookup, and markers wrapped around exactly the code of their statement',
+     assumptions=['loc_start of a statement is its first character (pyparsing Located, assumed)'],
+     not_covered=['source extracts for several statements per line', 'SELECT CASE marker bookkeeping', 'DebugInfo.add_node record fields beyond offsets'])
